@@ -103,6 +103,26 @@ def kf5(shadow, op, mismatched_texts):
     return True
 
 
+def kf5_exception(shadow, op, run_order):
+    """KF5 surfacing as an exception: the task that raised (the last run event) has, strictly upstream of it, a
+    definition that reads label[computed key] on the top-level container a direct child of which was assigned, and
+    that definition was NOT re-run before the raising task -- the manager does not know it depends on the assigned
+    location, so the raising task was evaluated on its stale value."""
+    if op[0] not in ("set", "iop") or len(op[1]) != 2 or not run_order:
+        return False
+    label = op[1][0]
+    by_text = {shadow.ck_text(ck): ck for ck in shadow.locations()}
+    ck = by_text.get(str(run_order[-1]))
+    if ck is None:
+        return False
+    ran_before = {str(x) for x in run_order[:-1]}
+    for up in shadow.true_reads_closure(ck):
+        if up != ck and up in shadow.defs and label in _toplevel_computed_reads(shadow.defs[up]) \
+                and shadow.ck_text(up) not in ran_before:
+            return True
+    return False
+
+
 # ---- KF6: LinearKnob does not declare the containers enclosing its targets ----------
 
 def kf6(shadow, run_order, mismatched_texts):
